@@ -192,6 +192,33 @@ func runC11(c *Ctx) {
 				}
 			})
 		}
+		// ... nor from a buffered reader before it becomes the scanner's (a constructor that skips a
+		// byte-order mark, a header line): whatever is consumed there is not counted either
+		{
+			inReader := c.P.Reachable(readNext)
+			inReader[readNext] = true
+			for _, fn := range c.P.AllLibFuncs() {
+				if inReader[fn] || fn.Pkg != readNext.Pkg {
+					continue
+				}
+				eachInstr(fn, func(_ *ssa.BasicBlock, in ssa.Instruction) {
+					cl, ok := in.(ssa.CallInstruction)
+					if !ok || cl.Common().IsInvoke() {
+						return
+					}
+					cal := cl.Common().StaticCallee()
+					if cal == nil || cal.Signature.Recv() == nil || typeStr(cal.Signature.Recv().Type()) != "*bufio.Reader" {
+						return
+					}
+					switch cal.Name() {
+					case "Read", "ReadByte", "ReadBytes", "ReadLine", "ReadRune", "ReadSlice", "ReadString", "Discard", "WriteTo":
+						if bad == "" {
+							bad = c.P.Pos(in.Pos()) + ": " + shortFn(fn) + " consumes bytes of a buffered reader of the scanner's package with " + cal.Name() + ", outside the line reader: the position does not count them and every later index is too small by that many bytes"
+						}
+					}
+				})
+			}
+		}
 		if ownerT != nil {
 			for _, w := range fieldWrites(c.P, "filterlist", ownerT.Obj().Name(), posField) {
 				if w.Fn != readNext {
